@@ -1,6 +1,6 @@
 CONSTANTS
 Mutant = 0
-Suppress = 0
+Suppress = 1
 INIT Init
 NEXT Next
 POSTCONDITION Verdict
